@@ -40,7 +40,51 @@ class Selector:
                 return n
         return R().visit(copy.deepcopy(e))
 
+    def _expand_all_over_criteria(self, fi: FuncInfo, e: ast.AST, at: ast.AST) -> ast.AST:
+        """all(BODY for I, V in L)  with  L = [(i, v) for i, v in enumerate((e0, e1, ...)) if v is not None]
+        becomes  (e0 is None or BODY[I:=0, V:=e0]) and (e1 is None or BODY[I:=1, V:=e1]) and ..."""
+        v = view(self.ctx, fi)
+
+        class R(ast.NodeTransformer):
+            def visit_Call(self2, n):
+                self2.generic_visit(n)
+                if not (isinstance(n.func, ast.Name) and n.func.id == 'all' and len(n.args) == 1 and isinstance(n.args[0], (ast.GeneratorExp, ast.ListComp))
+                        and len(n.args[0].generators) == 1 and not n.args[0].generators[0].ifs):
+                    return n
+                g = n.args[0].generators[0]
+                src = g.iter
+                if isinstance(src, ast.Name):
+                    d = unique_def(v, src.id, at)
+                    if d is None:
+                        return n
+                    src = d
+                if not (isinstance(src, ast.ListComp) and len(src.generators) == 1 and isinstance(src.generators[0].iter, ast.Call)
+                        and norm(src.generators[0].iter.func) == 'enumerate' and len(src.generators[0].iter.args) == 1
+                        and isinstance(src.generators[0].iter.args[0], ast.Tuple)):
+                    return n
+                g2 = src.generators[0]
+                if not (isinstance(g2.target, ast.Tuple) and len(g2.target.elts) == 2 and isinstance(src.elt, ast.Tuple)
+                        and [norm(x) for x in src.elt.elts] == [norm(x) for x in g2.target.elts]
+                        and len(g2.ifs) == 1 and norm(g2.ifs[0]) == f'{norm(g2.target.elts[1])} is not None'
+                        and isinstance(g.target, ast.Tuple) and len(g.target.elts) == 2):
+                    return n
+                iname, vname = norm(g.target.elts[0]), norm(g.target.elts[1])
+                terms = []
+                for k, ek in enumerate(g2.iter.args[0].elts):
+                    class S(ast.NodeTransformer):
+                        def visit_Name(self3, m):
+                            if m.id == iname:
+                                return ast.Constant(value=k)
+                            if m.id == vname:
+                                return copy.deepcopy(ek)
+                            return m
+                    body = S().visit(copy.deepcopy(n.args[0].elt))
+                    terms.append(ast.BoolOp(op=ast.Or(), values=[ast.Compare(left=copy.deepcopy(ek), ops=[ast.Is()], comparators=[ast.Constant(value=None)]), body]))
+                return ast.BoolOp(op=ast.And(), values=terms) if terms else ast.Constant(value=True)
+        return R().visit(copy.deepcopy(e))
+
     def formula(self, fi: FuncInfo, e: ast.AST, at: ast.AST, subst: Dict[str, object]):
+        e = self._expand_all_over_criteria(fi, e, at)
         e2 = expand(self.ctx, fi, e, at)
         e2 = self._inline_helpers(fi, e2)
         return bn.Abstractor(subst, nonnull=self.nonnull).formula(e2)
@@ -89,6 +133,9 @@ class Selector:
             return [(True, True, norm(e), ())]
         if isinstance(e, ast.Call) and isinstance(e.func, ast.Name) and e.func.id in ('list', 'tuple', 'iter') and len(e.args) == 1:
             return self.of_expr(fi, e.args[0], at, subst, env, depth + 1)
+        if isinstance(e, ast.Call) and norm(e.func) in ('starmap', 'itertools.starmap', 'map') and len(e.args) == 2 and isinstance(e.args[0], ast.Name):
+            inner = self.of_expr(fi, e.args[1], at, subst, env, depth + 1)
+            return [(c, p, src, kinds + ('wrapped',)) for c, p, src, kinds in inner]
         if isinstance(e, (ast.ListComp, ast.GeneratorExp)) and len(e.generators) == 1:
             g = e.generators[0]
             inner = self.of_expr(fi, g.iter, at, subst, env, depth + 1)
